@@ -533,3 +533,15 @@ Example C11_enabled_tree_example :
   /\ ~ enabled_path (fun _ _ => true) ex_top ex_user "" ["a2"; "g1"].
 Proof. exact enabled_tree_example. Qed.
 Print Assumptions C11_enabled_tree_example.
+
+(* K-C11-2 (known finding) as a refuted statement: the values the enablement rule is evaluated in
+   ([cvals] of the theorems above) are NOT always what the parent's templates see.  For a
+   dependency required under an alias at the second level (top -> suba as a1 -> gca as g1) whose
+   condition g1.enabled is decided only by its own values.yaml (enabled: false), a1's .Values hold
+   g1.enabled = false, yet the chain a1/g1 is enabled. *)
+Theorem C11_condition_in_parent_view_refuted :
+  exists x, values_seen (fun _ _ => true) kx_top [] ["a1"] = Some x
+    /\ lookup_path ["g1"; "enabled"] (VMap x) = Some (VBool false)
+    /\ enabled_path (fun _ _ => true) kx_top [] "" ["a1"; "g1"].
+Proof. exact condition_in_parent_view_refuted. Qed.
+Print Assumptions C11_condition_in_parent_view_refuted.
